@@ -6,16 +6,8 @@ import (
 	"golang.org/x/tools/go/ssa"
 )
 
-// strStructured interns a concrete string as a Str literal.
-func (ex *Exec) strStructured(s string) *Term {
-	id, ok := ex.strLits[s]
-	if !ok {
-		id = len(ex.strLitNames)
-		ex.strLits[s] = id
-		ex.strLitNames = append(ex.strLitNames, s)
-	}
-	return ex.tb.StrCons("slit", ex.tb.Int(int64(id)))
-}
+// strStructured gives the structured (Str datatype) form of a concrete string.
+func (ex *Exec) strStructured(s string) *Term { return ex.liftConcrete(s) }
 
 func (ex *Exec) strConcat(a, b *StrV) *Term {
 	return ex.tb.StrCons("sfmt", ex.tb.Int(-1), ex.strTerm(a), ex.strTerm(b), ex.strStructured(""))
@@ -31,16 +23,25 @@ func (ex *Exec) externalGlobal(g *ssa.Global, elem types.Type) Value {
 	if _, ok := elem.Underlying().(*types.Interface); ok && elem.String() == "error" {
 		v = ex.opaqueIface(name)
 	} else {
-		switch name {
-		case "net.IPv4zero", "net.IPv4bcast", "net.IPv4allsys", "net.IPv4allrouter":
-			bytes := map[string][4]byte{"net.IPv4zero": {0, 0, 0, 0}, "net.IPv4bcast": {255, 255, 255, 255}, "net.IPv4allsys": {224, 0, 0, 1}, "net.IPv4allrouter": {224, 0, 0, 2}}[name]
-			o := ex.newVec(types.Typ[types.Uint8], 16, name)
+		byteGlobals := map[string][]byte{
+			"net.IPv4zero":        {0, 0, 0, 0, 0, 0, 0, 0, 0, 0, 0xff, 0xff, 0, 0, 0, 0},
+			"net.IPv4bcast":       {0, 0, 0, 0, 0, 0, 0, 0, 0, 0, 0xff, 0xff, 255, 255, 255, 255},
+			"net.IPv4allsys":      {0, 0, 0, 0, 0, 0, 0, 0, 0, 0, 0xff, 0xff, 224, 0, 0, 1},
+			"net.IPv4allrouter":   {0, 0, 0, 0, 0, 0, 0, 0, 0, 0, 0xff, 0xff, 224, 0, 0, 2},
+			"net.v4InV6Prefix":    {0, 0, 0, 0, 0, 0, 0, 0, 0, 0, 0xff, 0xff},
+			"net.IPv6zero":        make([]byte, 16),
+			"net.IPv6unspecified": make([]byte, 16),
+			"net.IPv6loopback":    {0, 0, 0, 0, 0, 0, 0, 0, 0, 0, 0, 0, 0, 0, 0, 1},
+		}
+		switch bs, isBytes := byteGlobals[name]; {
+		case isBytes:
+			o := ex.newVec(types.Typ[types.Uint8], len(bs), name)
 			o.Ghost = true
-			full := [16]byte{0, 0, 0, 0, 0, 0, 0, 0, 0, 0, 0xff, 0xff, bytes[0], bytes[1], bytes[2], bytes[3]}
-			for i, b := range full {
+			for i, b := range bs {
 				o.Elems[i] = ex.intConst(types.Typ[types.Uint8], int64(b))
 			}
-			v = ex.mkSlice(o, ex.idxConst(0), ex.idxConst(16), ex.idxConst(16))
+			n := ex.idxConst(int64(len(bs)))
+			v = ex.mkSlice(o, ex.idxConst(0), n, n)
 		default:
 			panic(ex.unsupported("external global %s", name))
 		}
